@@ -4,7 +4,7 @@ of the properties recorded as detecting it), undo, and write seeded/RESULTS.json
 import json, os, re, subprocess, sys, time
 SEEDED = "/verif/seeded"
 only = sys.argv[1:]
-results = {}
+results = json.load(open(os.path.join(SEEDED, "RESULTS.json"))) if (only and os.path.exists(os.path.join(SEEDED, "RESULTS.json"))) else {}
 for name in sorted(os.listdir(SEEDED)):
     d = os.path.join(SEEDED, name)
     if not os.path.isdir(d) or (only and name not in only):
